@@ -70,7 +70,7 @@ func NewSolver(ts *TermStore, kind string, timeoutMs int) *Solver {
 	bin, args := solverArgs(kind, timeoutMs)
 	// CPU and address-space limits bound a runaway or orphaned solver process; a solver that dies is restarted
 	// and its query counts as unknown (see safeCheck).
-	sh := "ulimit -t 1200; ulimit -v 10000000; exec " + bin + " " + strings.Join(args, " ")
+	sh := "ulimit -t 1200; ulimit -v 6000000; exec " + bin + " " + strings.Join(args, " ")
 	cmd := exec.Command("sh", "-c", sh)
 	in, _ := cmd.StdinPipe()
 	out, _ := cmd.StdoutPipe()
